@@ -298,6 +298,17 @@ def universe(tier, seed, shard, nshards):
             for mask in masks(2):
                 for w in (None, 1):
                     yield 'U2-ndim2', 2, coll, c, mask, ({'window': w} if w else {})
+    # many series: the mask crosses the byte boundaries of the bit array handed to the C code (EVERY non-empty mask)
+    for t in ((9, 10, 17) if thorough else (9, 10)):
+        coll = tuple(((A[k % 3],) if k % 2 else (A[k % 3], A[(k + 1) % 3])) for k in range(t))
+        allmasks = masks(t) if t <= 10 else [m for m in (tuple(bool((b >> i) & 1) for i in range(t)) for b in
+                                                       [1 << i for i in range(t)] + [(1 << 8) | (1 << 16), (1 << 16) | 1, 0x1FF00, 0x10100, 0x1FFFF, 0x0FF01]) if any(m)]
+        for mask in allmasks:
+            idx += 1
+            if idx % nshards != shard:
+                continue
+            for c in ((A[0],), (A[1], A[2])):
+                yield 'U5-many-series', 1, coll, c, mask, {}
 
 
 def worker(acc, shard, nshards, tier, seed):
@@ -326,7 +337,7 @@ def run(ctx):
     acc = core.run_sharded(worker, extra=(ctx.tier, ctx.seed))
     return core.finish(
         PROP, ctx.tier, ctx.seed, acc,
-        rule='every collection of 1..3 short series x initial average x non-empty mask x window{None,1,2} x penalty{None,.5} through dba (Python), dba(use_c) and dtw_cc.dba/_ndim: the result must be the '
+        rule='every collection of 1..3 short series (and, for the mask bit array, collections of 9, 10 (17) series of length 1-2 with EVERY non-empty mask) x initial average x non-empty mask x window{None,1,2} x penalty{None,.5} through dba (Python), dba(use_c) and dtw_cc.dba/_ndim: the result must be the '
              'per-position mean under SOME combination of optimal paths (all optimal paths enumerated explicitly), stay in the value range, not increase the sum of squared reference DTW distances; engines must agree when '
              'optimal paths are unique; every 23rd case: all single-symbol changes of unselected series; every 11th: dba_loop step count / c untouched / fixed point; non-trivial = a position receives >= 2 points or the mask is a strict subset',
         bounds={'alphabet': list(univ.alphabet(univ.BASE3, ctx.seed)), 'collections': 'n=1: lengths 1..3; n=2: lengths 1..%s; n=3: lengths 1..%s' % (('3', '2') if ctx.thorough else ('2 (+2 of length 3)', '1 (+3 of length 2)')),
